@@ -1,7 +1,7 @@
 #!/bin/bash
 # runall.sh [tier] props... : run checks one after another, print one summary line each
 tier=${TIER:-quick}
-cd /verif
+cd "$(dirname "$0")/.."
 for p in "$@"; do
   start=$(date +%s)
   out=$(timeout 3000 ./vcheck $p --tier $tier 2>&1); rc=$?
